@@ -40,6 +40,13 @@ def be_value(E, st, zs):
     t = BE(zs)
     st.fact(t >= 0)
     st.fact(z3.Implies(z3.Length(zs) == 0, t == 0))
+    if E.options.get('int_lemmas') is not None:
+        # opt-in ground facts of base-256 positional notation: range by length, lower bound by a non-zero leading
+        # digit, and injectivity on strings of one length (i2osp is the left inverse of be)
+        ln = z3.Length(zs)
+        st.fact(t < ops.pow2(E, st, 8 * ln))
+        st.fact(z3.Implies(z3.And(ln >= 1, zs[0] != 0), t >= ops.pow2(E, st, 8 * (ln - 1))))
+        st.fact(I2OSP(t, ln) == zs)
     return t
 
 
@@ -101,7 +108,7 @@ def _class_test(E, st, v, c):
             return py is float
         if isinstance(v, Ref):
             h = st.heap[v.oid]
-            if h.kind == 'list':
+            if h.kind in ('list', 'acc'):
                 return py is list
             if h.kind == 'dict':
                 return py is dict
@@ -146,6 +153,10 @@ def b_len(E, st, args, kw):
     if isinstance(v, (bytes, str, tuple, frozenset, range)):
         return val(st, len(v))
     if isinstance(v, SBytes):
+        if E.options.get('ssize_len') and st.frames and not st.frame.spec_mode:
+            # opt-in CPython fact: len() of an existing object is a Py_ssize_t, i.e. <= sys.maxsize == 2**63 - 1
+            # (code only, never in spec mode: a specification string is a mathematical value, not an object)
+            st.fact(z3.Length(v.t) <= 2 ** 63 - 1)
         return val(st, mk_int(seq_length(E, st, v.t)))
     if isinstance(v, FrozenDict):
         return val(st, len(v.d))
@@ -153,6 +164,8 @@ def b_len(E, st, args, kw):
         h = st.heap[v.oid]
         if h.kind in ('list', 'dict'):
             return val(st, len(h.items))
+        if h.kind == 'acc':
+            return val(st, h.items[0])
         if h.kind == 'bytearray':
             return b_len(E, st, [h.items], kw)
         f = h.cls.find_method('__len__') if h.cls else None
@@ -391,6 +404,8 @@ def b_bytes(E, st, args, kw, kind='bytes'):
             return wrap(val(st, h.items if not isinstance(h.items, SBytes) else SBytes(h.items.t, 'bytes')))
         if h.kind == 'list':
             return wrap(_bytes_from_iter(E, st, list(h.items)))
+        if h.kind == 'acc':
+            raise Unsupported('bytes(accumulator list)')
         mv = object_bytes(E, st, v, h)
         if mv is not None:
             return wrap(mv)
@@ -498,12 +513,21 @@ def b_pow(E, st, args, kw):
         outs = [('val', s1, v) for s1, v in ops.binop(E, ast.Pow(), args[0], args[1], st, sink)]
         return sink + outs
     b, e, m = args
+    if m is None:
+        return b_pow(E, st, [b, e], kw)
     if all(isinstance(x, int) for x in args):
         try:
             return val(st, pow(b, e, m))
         except Exception as ex:      # noqa
             return rz(st, type(ex), str(ex))
+    if isinstance(b, Ref) and st.heap[b.oid].kind == 'obj' and st.heap[b.oid].cls is not None:
+        f = st.heap[b.oid].cls.find_method('__pow__')
+        if f is not None:
+            from .interp import FuncV
+            return E.call_function(FuncV(f), [b, e, m], {}, st)
     if not all(is_intlike(x) for x in args):
+        if any(isinstance(x, (Ref, SOpaque)) for x in args):
+            raise Unsupported('3-argument pow() with an object operand')
         return rz(st, TypeError, 'unsupported operand type(s) for pow()')
     zb, ze, zm = zint(b), zint(e), zint(m)
     outs = []
@@ -513,14 +537,56 @@ def b_pow(E, st, args, kw):
     if nz is not None:
         neg, ok = E.split(nz, ze < 0)
         if neg is not None:
-            # modular inverse: exists iff gcd(b, m) == 1 ; modelled through the same uninterpreted symbol
-            raise Unsupported('pow with negative exponent')
+            # modular inverse (python >= 3.8): pow(b, -1, m), m > 0, is the r in [0, m) with b*r == 1 (mod m);
+            # ValueError iff gcd(b, m) != 1.  Only this form is modelled.
+            if not (isinstance(e, int) and e == -1 and E.implied(neg, zm > 0)):
+                raise Unsupported('pow with negative exponent other than pow(b, -1, m > 0)')
+            g = gcd_value(E, neg, zb, zm)
+            noinv, inv = E.split(neg, g != 1)
+            if noinv is not None:
+                outs += rz(noinv, ValueError, 'base is not invertible for the given modulus')
+            if inv is not None:
+                t = MODINV(zb, zm)
+                inv.fact(z3.And(t >= 0, t < zm))
+                inv.fact((zb * t - 1) % zm == 0)
+                outs.append(('val', inv, mk_int(t)))
         if ok is not None:
             t = MODPOW(zb, ze, zm)
             ok.fact(z3.Implies(zm > 0, z3.And(t >= 0, t < zm)))
             ok.fact(z3.Implies(zm < 0, z3.And(t <= 0, t > zm)))
             outs.append(('val', ok, mk_int(t)))
     return outs
+
+
+MODINV = z3.Function('modinv', INT, INT, INT)
+GCD = z3.Function('gcd', INT, INT, INT)
+
+
+def gcd_value(E, st, a, b):
+    """math.gcd(a, b): uninterpreted, with the ground instances of its defining properties (non-negative, common divisor,
+    zero only for (0, 0), symmetric, sign-insensitive, gcd(a, 0) == |a|)"""
+    t = GCD(a, b)
+    st.fact(t >= 0)
+    st.fact((t == 0) == z3.And(a == 0, b == 0))
+    st.fact(z3.Implies(t > 0, z3.And(a % t == 0, b % t == 0)))
+    st.fact(t == GCD(b, a))
+    st.fact(t == GCD(z3.If(a < 0, -a, a), z3.If(b < 0, -b, b)))
+    st.fact(z3.Implies(b == 0, t == z3.If(a < 0, -a, a)))
+    st.fact(z3.Implies(a == 0, t == z3.If(b < 0, -b, b)))
+    return t
+
+
+def x_math_gcd(E, st, a, k):
+    if len(a) != 2:
+        raise Unsupported('math.gcd with %d arguments' % len(a))
+    if all(isinstance(x, int) for x in a):
+        import math as _math
+        return val(st, _math.gcd(*a))
+    if not all(is_intlike(x) for x in a):
+        if any(isinstance(x, (Ref, SOpaque)) for x in a):
+            raise Unsupported('math.gcd of an object (through __index__)')
+        return rz(st, TypeError, 'object cannot be interpreted as an integer')
+    return val(st, mk_int(gcd_value(E, st, zint(a[0]), zint(a[1]))))
 
 
 def b_sum(E, st, args, kw):
@@ -609,8 +675,32 @@ def b_zip(E, st, args, kw):
 
 
 def b_map(E, st, args, kw):
-    # lazily evaluated in CPython; the code base only iterates the result immediately or never
-    raise Unsupported('map()')
+    # lazily evaluated in CPython: building the iterator calls nothing.  The result is an opaque object; consuming it
+    # (iteration, list(), ...) is outside the subset and reported as such.
+    return val(st, SOpaque(E.fresh(ANY, 'lazy_map'), 'lazy_map'))
+
+
+def b_filter(E, st, args, kw):
+    """filter(f, concrete-length iterable), evaluated eagerly (the predicate must be pure): forks on each element"""
+    f, it = args
+    items = E.iter_concrete(it, st)
+    outs = []
+    work = [(st, 0, [])]
+    while work:
+        s0, i, acc = work.pop()
+        if i == len(items):
+            outs.append(('val', s0, tuple(acc)))
+            continue
+        for o in (E.call(f, [items[i]], {}, s0) if f is not None else [('val', s0, items[i])]):
+            if o[0] == 'raise':
+                outs.append(o)
+                continue
+            a, b = E.split(o[1], E.truth(o[2], o[1]))
+            if a is not None:
+                work.append((a, i + 1, acc + [items[i]]))
+            if b is not None:
+                work.append((b, i + 1, acc))
+    return outs
 
 
 def b_str(E, st, args, kw):
@@ -667,6 +757,20 @@ def b_bin(E, st, args, kw):
 
 def b_type(E, st, args, kw):
     from .interp import ClassV
+    if len(args) == 3:
+        # type(name, (), {const-name: concrete value}): the `enum(**enums)` idiom of the mode modules -> a namespace class
+        # whose attributes are those constants
+        name, bases, d = args
+        items = st.heap[d.oid].items if isinstance(d, Ref) and st.heap[d.oid].kind == 'dict' else None
+        if isinstance(name, str) and bases == () and items is not None and \
+                all(isinstance(k, str) and isinstance(x, (int, str, bytes)) and not isinstance(x, SV) for k, x in items.items()):
+            from . import loader
+            E.counter += 1
+            node = ast.ClassDef(name='%s#%d' % (name, E.counter), bases=[], keywords=[], decorator_list=[],
+                                body=[ast.Assign(targets=[ast.Name(id=k, ctx=ast.Store())], value=ast.Constant(value=x))
+                                      for k, x in items.items()])
+            return val(st, ClassV(loader.ClassInfo(node, st.frame.module)))
+        raise Unsupported('type() with three arguments')
     v = args[0]
     if isinstance(v, Ref):
         h = st.heap[v.oid]
@@ -784,6 +888,8 @@ def value_attr(E, st, base, attr):
             return BuiltinV('object.__init__', lambda E, st, a, k: val(st, None))
         raise Unsupported('super().%s' % attr)
     if is_byteslike(base):
+        if attr == 'readonly' and isinstance(base, SBytes) and base.kind == 'memoryview':
+            return True     # a modelled memoryview is a view over immutable bytes (views over bytearrays are outside the subset)
         fn = _BYTES_METHODS.get(attr)
         if fn is not None:
             return BuiltinV('bytes.' + attr, lambda E, st, a, k, fn=fn, base=base: fn(E, st, base, a, k))
@@ -946,6 +1052,11 @@ def m_index(E, st, base, a, k):
 
 
 def m_join(E, st, base, a, k):
+    if isinstance(a[0], Ref) and st.heap[a[0].oid].kind == 'acc':
+        # accumulator abstraction (count, last, joined): exact only for the empty separator
+        if isinstance(base, bytes) and len(base) == 0:
+            return val(st, st.heap[a[0].oid].items[2])
+        raise Unsupported('join of an accumulator list with a non-empty or symbolic separator')
     items = E.iter_concrete(a[0], st)
     for x in items:
         if not is_byteslike(x) and not (isinstance(x, Ref) and st.heap[x.oid].kind == 'bytearray'):
@@ -1007,6 +1118,10 @@ def m_bit_length(E, st, base, a, k):
     st.fact(t >= 0)
     st.fact(z3.Implies(x == 0, t == 0))
     st.fact(z3.Implies(x != 0, t >= 1))
+    if E.options.get('int_lemmas') is not None:
+        # opt-in: the defining inequality of int.bit_length() (Python docs): 2**(k-1) <= abs(x) < 2**k for x != 0
+        ax = z3.If(x < 0, -x, x)
+        st.fact(z3.Implies(x != 0, z3.And(ops.pow2(E, st, t - 1) <= ax, ax < ops.pow2(E, st, t))))
     return val(st, mk_int(t))
 
 
@@ -1128,6 +1243,22 @@ def container_attr(E, st, ref, h, attr):
             st.writes.append((ref.oid, '<items>'))
             return val(st, None)
         return BuiltinV('list.' + attr, lm)
+    if h.kind == 'acc':
+        # append-only accumulator abstraction of a list of byte strings: items = [count, last, joined]
+        if attr != 'append':
+            raise Unsupported('accumulator list .%s' % attr)
+
+        def am(E, st, a, k):
+            h = st.heap[ref.oid]
+            if len(a) != 1 or k:
+                return rz(st, TypeError, 'append() takes exactly one argument')
+            if not is_byteslike(a[0]):
+                raise Unsupported('accumulator list: append of a non-bytes item')
+            cnt, _last, joined = h.items
+            h.items = [mk_int(zint(cnt) + 1), a[0], mk_bytes(z3.Concat(zbytes(joined), zbytes(a[0])))]
+            st.writes.append((ref.oid, '<items>'))
+            return val(st, None)
+        return BuiltinV('list.append', am)
     if h.kind == 'dict':
         def dm(E, st, a, k):
             h = st.heap[ref.oid]
@@ -1186,6 +1317,13 @@ def container_attr(E, st, ref, h, attr):
                 st.writes.append((ref.oid, '<data>'))
                 return val(st, None)
             return BuiltinV('bytearray.extend', ext)
+        if attr == 'reverse':
+            def rev(E, st, a, k):
+                h = st.heap[ref.oid]
+                h.items = mk_bytes(ops.reverse_value(E, st, zbytes(h.items)))
+                st.writes.append((ref.oid, '<data>'))
+                return val(st, None)
+            return BuiltinV('bytearray.reverse', rev)
     return _MISSING
 
 
@@ -1286,6 +1424,7 @@ _EXTERNAL = {
     ('struct', 'unpack'): BuiltinV('struct.unpack', x_struct_unpack),
     ('struct', 'calcsize'): BuiltinV('struct.calcsize', x_struct_calcsize),
     ('struct', 'error'): PyClassV(_struct.error),
+    ('math', 'gcd'): BuiltinV('math.gcd', x_math_gcd),
     ('sys', 'maxsize'): 2 ** 63 - 1,
     ('sys', 'byteorder'): 'little',
     ('sys', 'version_info'): (3, 12, 1, 'final', 0),
@@ -1311,6 +1450,12 @@ def object_attr(E, st, ref, h, attr):
 
 
 def call_object(E, st, ref, h, args, kwargs):
+    # abstract (native / caller-supplied) callable object: its call exists only as the contract  <class>.__call__
+    gid = getattr(h, 'ghost_id', None)
+    if h.kind == 'obj' and h.cls is None and gid and E.registry is not None:
+        hook = E.registry.call_hook(E, gid + '.__call__', st)
+        if hook is not None:
+            return list(hook(E, st, [ref] + list(args), dict(kwargs)))
     return _MISSING
 
 
